@@ -237,6 +237,14 @@ func genCfg(rng *rand.Rand, i int) choiceCfg {
 		v := int64(pickDur(rng, time.Second, 10*time.Second, 3*time.Minute, 15*time.Minute)) + rng.Int64N(int64(time.Second))
 		cfg.ActionTimeout = &v
 	}
+	if cfg.Calc == "pagerank" && rng.IntN(8) == 0 {
+		// The action's own timeout at, just below and just above the
+		// calculator's minimum execution timeout.
+		if v := int64(cfg.MinTimeout) + int64(rng.IntN(3)) - 1; v >= 0 {
+			cfg.ActionTimeout = &v
+			cfg.Overlays = append(cfg.Overlays, "timeout-at-minimum")
+		}
+	}
 	cfg.Own = cfg.DefaultTimeout
 	if cfg.ActionTimeout != nil {
 		cfg.Own = time.Duration(*cfg.ActionTimeout)
@@ -479,6 +487,17 @@ func genStats(rng *rand.Rand, cfg *choiceCfg, now time.Time) *iscc.PreviousExecu
 			}
 		}
 	}
+	if rng.IntN(8) == 0 && cfg.Profile != "lopsided" {
+		// One history one short of, exactly at and one beyond the
+		// configured history size.
+		overlay("history-at-capacity")
+		p := ensure(classes[rng.IntN(n)])
+		want := cfg.HistorySize + rng.IntN(3) - 1
+		for len(p.PreviousExecutions) < want {
+			p.PreviousExecutions = append(p.PreviousExecutions, succ(jitter(rng, base, 0.5, 1.5)))
+		}
+		p.PreviousExecutions = p.PreviousExecutions[:want]
+	}
 	if rng.IntN(80) == 0 && cfg.Profile != "lopsided" {
 		overlay("huge-history")
 		cfg.Chains = 1 + rng.IntN(2)
@@ -518,6 +537,11 @@ func genStats(rng *rand.Rand, cfg *choiceCfg, now time.Time) *iscc.PreviousExecu
 	case 4:
 		overlay("failure-epoch")
 		stats.LastSeenFailure = &timestamppb.Timestamp{}
+	case 5:
+		// Exactly at, one nanosecond before and after the instant the
+		// failure cache entry expires.
+		overlay("failure-at-expiry")
+		stats.LastSeenFailure = timestamppb.New(now.Add(-cfg.FailureCache + time.Duration(rng.IntN(3)-1)))
 	}
 
 	// Everything the analyzer sees came off the wire.
@@ -710,6 +734,7 @@ type choiceWorker struct {
 	sits     map[string]int
 	counts   map[string]int
 	reached  bool
+	stamped  bool // a chain of this case recorded a failure on the largest class
 	// watchdog
 	curCase atomic.Int64
 	since   atomic.Int64 // unix nanos (wall clock; watchdog only, never an oracle)
@@ -835,6 +860,7 @@ func (w *choiceWorker) runCase(i int) {
 	w.sits = map[string]int{}
 	w.counts = map[string]int{}
 	w.reached = false
+	w.stamped = false
 	now := w.clock.Now()
 	stats := genStats(rng, &w.cfg, now)
 	w.initProb = snapshotOf(stats).probs
@@ -1270,6 +1296,14 @@ func (w *choiceWorker) checkDelta(c *chain, call string, before statsSnapshot, a
 		}
 		want[cl] = base.appendTo(es, w.cfg.HistorySize)
 		touched[cl] = true
+		switch total := base.n + len(es); {
+		case base.n == w.cfg.HistorySize:
+			w.sit("append-to-full-history")
+		case total == w.cfg.HistorySize:
+			w.sit("append-fills-history-exactly")
+		case total > w.cfg.HistorySize:
+			w.sit("append-to-overfull-history")
+		}
 	}
 	seen := map[uint32]bool{}
 	for cl, es := range after.classes {
@@ -1294,6 +1328,7 @@ func (w *choiceWorker) checkDelta(c *chain, call string, before statsSnapshot, a
 	wantLSF := before.lsf
 	if wantFailureStamp {
 		wantLSF = tsKey(timestamppb.New(w.clock.Now()))
+		w.stamped = true
 	}
 	if after.lsf != wantLSF {
 		w.violate("last-seen-failure-mismatch", facts, fmt.Sprintf("last_seen_failure = %s, reference model %s", after.lsf, wantLSF))
@@ -1433,8 +1468,21 @@ func (w *choiceWorker) stepChain(c *chain) bool {
 		if !fb {
 			w.checkDelta(c, "Select", before, nil, false)
 			w.checkHandle(c, "Select", false, false)
-			if ts := w.store.msg.GetLastSeenFailure(); ts.CheckValid() == nil && !ts.AsTime().Before(w.clock.Now().Add(-w.cfg.FailureCache)) {
-				w.sit("failure-cache-active")
+			if ts := w.store.msg.GetLastSeenFailure(); ts.CheckValid() == nil {
+				expiry := ts.AsTime().Add(w.cfg.FailureCache)
+				now := w.clock.Now()
+				active := !now.After(expiry)
+				if active {
+					w.sit("failure-cache-active")
+				}
+				if d := now.Sub(expiry); d >= -1 && d <= 1 {
+					w.sit("failure-cache-expiry-boundary")
+				}
+				if w.stamped && active {
+					w.sit("select-while-recorded-failure-cached")
+				} else if w.stamped {
+					w.sit("select-after-recorded-failure-expired")
+				}
 			}
 		}
 		return true
@@ -1465,6 +1513,9 @@ func (w *choiceWorker) stepChain(c *chain) bool {
 			appended = []appendExp{{c.smallerClass, entryFromDuration('S', d)}}
 		case "largestForegroundLearner":
 			appended = []appendExp{{c.smallerClass, c.pending}, {c.largestClass, entryFromDuration('S', d)}}
+			if c.smallerClass == c.largestClass {
+				w.sit("retry-on-same-class-succeeded")
+			}
 		case "largestBackgroundLearner", "largestLearner":
 			appended = []appendExp{{c.largestClass, entryFromDuration('S', d)}}
 		case "smallerBackgroundLearner":
@@ -1708,6 +1759,16 @@ func declareChoiceFloors(r *ev.Run) {
 	r.Floor("choices:interleaved-chains", 500)
 	r.Floor("choices:failure-cache-active", 100)
 	r.Floor("choices:analyze-error", 100)
+	for _, o := range []string{"timeout-at-minimum", "failure-at-expiry", "history-at-capacity"} {
+		r.Floor("choices:overlay="+o, 200)
+	}
+	r.Floor("choices:append-to-full-history", 500)
+	r.Floor("choices:append-fills-history-exactly", 300)
+	r.Floor("choices:append-to-overfull-history", 50)
+	r.Floor("choices:failure-cache-expiry-boundary", 100)
+	r.Floor("choices:select-while-recorded-failure-cached", 300)
+	r.Floor("choices:select-after-recorded-failure-expired", 300)
+	r.Floor("choices:retry-on-same-class-succeeded", 20)
 }
 
 func replayChoices(r *ev.Run, i int) {
